@@ -12,11 +12,16 @@ from sfv.props.ixcommon import H, HT, Interner, parse_answer
 
 TARGETS = ['SFModel.Props.C05']
 THEOREMS = [
-    'SF.C05.views_agree', 'SF.C05.contains_overlong_counterexample', 'SF.C05.cache_coherent', 'SF.C05.ofLevel_coherent',
+    'SF.C05.views_agree', 'SF.C05.containsPinned_overlong_counterexample', 'SF.C05.cache_coherent', 'SF.C05.ofLevel_coherent',
+    'SF.C05.leaf_open_slice_bounded',
     'SF.C05.hloc_fuel', 'SF.C05.hloc_exact_partial', 'SF.C05.hloc_full_tuple',
 ]
-PARTIAL = ['SF.C05.hloc_exact_partial: proved for per-depth selectors label / all / list (any mix, any depth); label slices and the '
-           'Boolean mask at the innermost depth are covered by the model-vs-code comparison and the list-of-tuples oracle only']
+PARTIAL = ['SF.C05.hloc_exact_partial: proved for per-depth selectors label / all / list (any mix, any depth). Missing for label slices: '
+           '(1) a slice matches by POSITION in the label order of its node (not by the label value alone), so Sel.matches/matchFrom need the node as '
+           'context; (2) a slice whose endpoint is absent from some visited node raises LocInvalid from an inner node, so nodes emit too and the '
+           'layer lemma (emission at the leaf layer only) needs a "no visited node lacks an endpoint" predicate threaded through hloc_pass; the '
+           'repaired leaf bound itself is proved (leaf_open_slice_bounded). Slices and the innermost Boolean mask are covered by the '
+           'model-vs-code comparison and the list-of-tuples oracle']
 CORR_ONLY = [
     'label-slice and Boolean selectors of HLoc; Boolean masks at outer depths (outside the claim, compared model vs code only)',
     'IndexHierarchy.loc / iloc / Frame.loc[HLoc] / Series[HLoc] (rows extracted by TypeBlocks: C03/C04) against the list-of-tuples reference',
@@ -430,6 +435,10 @@ def observe_views(ih, hts, depth, order, what, c, probes=()):
                 for p in probes:
                     if len(p) == depth and HT(p) not in hts and (p in ih):
                         bad(f'absent tuple {p!r} reported as in index')
+                for t in labs[:2]:
+                    for wrong in (tuple(t) + (t[-1],), tuple(t)[:-1]):
+                        if wrong in ih:
+                            bad(f'key {wrong!r} of length {len(wrong)} (depth {depth}) reported as in index')
             elif ob == 'loc':
                 labs = list(ih)
                 for i, t in enumerate(labs):
@@ -631,6 +640,9 @@ def eval_hist(ctx, c, outs):
                 mutated_after_read = mutated_after_read or read_seen
                 if hk in cur[:-1] or len(key) != depth:
                     fails.append(Failure('oracle', f'append({key!r}) of a held / wrong-depth key was accepted', c, detail={'op': oi, 'f11': f11}))
+                elif not valid:
+                    fails.append(Failure('oracle', f'append({key!r}) names a closed sub-tree (not a tree in the given order) but was accepted', c,
+                                         detail={'op': oi, 'f11': f11}))
             elif valid:
                 fails.append(Failure('oracle', f'append({key!r}) (new, in tree order) raised {type(r).__name__}: {r}', c, detail={'op': oi}))
         elif k == 'ex':
@@ -736,16 +748,4 @@ def f11_shape(cur, hk):
 
 
 def classify(f):
-    c = f.case
-    d = f.detail or {}
-    if c.get('k') == 'hloc' and f.kind == 'oracle' and d.get('sel') is not None:
-        sels = c['sels'][d['sel']]
-        last = sels[-1]
-        if len(sels) == len(c['kinds']) and last[0] == 'sl' and ((last[1] is None) != (last[2] is None)):
-            return 'F46-hloc-open-slice-at-leaf'
-    if c.get('k') == 'hist' and f.kind == 'oracle':
-        if d.get('f11'):
-            return 'F11-levelgo-append-last-child'
-        if d.get('empty_extend'):
-            return 'F43-extend-on-empty-hierarchy'
     return None
